@@ -108,6 +108,8 @@ type Exec struct {
 	extErrN  int
 	globalRegions []Term
 	curCall  *ssa.CallCommon
+	entryEnv *Env
+	against  bool
 }
 
 func (x *Exec) posStr(p token.Pos) string {
@@ -175,7 +177,7 @@ func (x *Exec) load(st *State, l *Loc) Val {
 	for _, p := range l.Path {
 		root = app(p.SI.Fields[p.Field].Sel, root)
 	}
-	if at, ok := types.Unalias(l.T).Underlying().(*types.Array); ok {
+	if at, ok := under(l.T).(*types.Array); ok {
 		_ = at
 		// array values are represented by their region id
 		return Val{T: l.T, S: l.ArrRegion}
@@ -250,7 +252,7 @@ func (x *Exec) name(prefix, sort string, t Term) Term {
 
 // locOfPointer turns a pointer value to a struct into a location of one of its fields.
 func (x *Exec) fieldLoc(base Val, field int) *Loc {
-	pt := types.Unalias(base.T).Underlying().(*types.Pointer)
+	pt := under(base.T).(*types.Pointer)
 	si := x.so.structOf(pt.Elem())
 	if si == nil {
 		panic(fmt.Sprintf("fieldLoc: not a struct pointer: %s", base.T))
@@ -271,7 +273,7 @@ func (x *Exec) fieldLoc(base Val, field int) *Loc {
 }
 
 func (x *Exec) arrayInfo(l *Loc) {
-	if at, ok := types.Unalias(l.T).Underlying().(*types.Array); ok {
+	if at, ok := under(l.T).(*types.Array); ok {
 		// arrays nested in structs are not supported except as opaque values
 		l.ArrLen = at.Len()
 		if l.ArrRegion == "" {
@@ -389,7 +391,7 @@ func (x *Exec) globalPtr(g *ssa.Global) Val {
 	et := g.Type().(*types.Pointer).Elem()
 	key := "G:" + g.Pkg.Pkg.Path() + "." + g.Name()
 	l := &Loc{Kind: lGlobal, Key: key, RootT: et, T: et}
-	if at, ok := types.Unalias(et).Underlying().(*types.Array); ok {
+	if at, ok := under(et).(*types.Array); ok {
 		l.ArrLen = at.Len()
 		l.ArrRegion = x.sc.declConst("greg_"+sanitize(g.Pkg.Pkg.Path()+"."+g.Name()), "Int")
 		x.sc.assert(fmt.Sprintf("(and (> %s 0) (< %s %s))", l.ArrRegion, l.ArrRegion, x.allocBase))
@@ -705,6 +707,12 @@ func (x *Exec) runBlock(fr *Frame, b *ssa.BasicBlock, back map[[2]int]bool) {
 			for _, r := range t.Results {
 				vs = append(vs, x.val(fr, r))
 			}
+			if fr.isTop && x.fc != nil && len(x.fc.Anchors) > 0 {
+				x.returnAnchors(fr, b, t, vs, st, reach)
+			}
+			if fr.isTop && x.fc != nil && x.entryEnv != nil {
+				x.postsAtReturn(fr, t, vs, st, reach)
+			}
 			fr.rets = append(fr.rets, retRec{cond: reach, st: st, vals: vs, pos: t.Pos()})
 			return
 		case *ssa.Panic:
@@ -753,4 +761,94 @@ func (x *Exec) cover(label string, cond Term, pos token.Pos, text string) {
 	name := x.fnKey + "/cover:" + label
 	o := &Obligation{Name: name, Func: x.fnKey, Kind: "cover", Label: label, Goal: cond, Cut: len(x.sc.asserts), Pos: x.posStr(pos), Text: text, Cover: true}
 	x.sc.obls = append(x.sc.obls, o)
+}
+
+// returnOrdinal numbers the return statements of a function in source order (1-based).
+func returnOrdinal(fn *ssa.Function, r *ssa.Return) int {
+	var rs []*ssa.Return
+	for _, b := range fn.Blocks {
+		if b == fn.Recover {
+			continue
+		}
+		for _, in := range b.Instrs {
+			if rr, ok := in.(*ssa.Return); ok {
+				rs = append(rs, rr)
+			}
+		}
+	}
+	sort.SliceStable(rs, func(i, j int) bool { return rs[i].Pos() < rs[j].Pos() })
+	for i, rr := range rs {
+		if rr == r {
+			return i + 1
+		}
+	}
+	return 0
+}
+
+// returnAnchors handles `assert e at return n` (proof hint: proved, then assumed)
+// and `assume e at return n` (listed as an assumption).
+func (x *Exec) returnAnchors(fr *Frame, b *ssa.BasicBlock, r *ssa.Return, vs []Val, st *State, reach Term) {
+	n := returnOrdinal(fr.fn, r)
+	for _, ac := range x.fc.Anchors {
+		if ac.At != "return" || ac.K != n {
+			continue
+		}
+		env := &Env{vars: map[string]Val{}, cur: st, old: x.old, pkg: fr.fn.Pkg.Pkg, fr: fr, at: b, x: x, freshLo: "allocBase0"}
+		env.lookup = func(name string) (Val, bool) { return x.lookupVar(fr, b, len(b.Instrs), name, env.cur) }
+		resT := fr.fn.Signature.Results()
+		for i := 0; i < resT.Len() && i < len(vs); i++ {
+			env.vars[fmt.Sprintf("ret%d", i)] = vs[i]
+			if isErrorType(resT.At(i).Type()) {
+				env.vars["err"] = vs[i]
+			}
+		}
+		t := x.trBool(ac.Clause.Expr, env)
+		if ac.Kind == "assert" {
+			x.oblige("hint", fmt.Sprintf("return%d:%s", n, labelOr(ac.Clause.Label, 0)), implies(reach, t), r.Pos(), ac.Clause.Text)
+		} else {
+			x.sc.assert(implies(reach, t))
+			x.sc.note("ASSUMED at return %d: %s", n, ac.Clause.Text)
+		}
+	}
+}
+
+// postsAtReturn checks every ensures clause at one return site (smaller VCs than
+// checking the merged exit state; the same clause at several returns gets #n suffixes).
+func (x *Exec) postsAtReturn(fr *Frame, r *ssa.Return, rets []Val, st *State, reach Term) {
+	fn := fr.fn
+	fc := x.fc
+	penv := &Env{vars: map[string]Val{}, cur: st, old: x.old, pkg: fn.Pkg.Pkg, x: x, freshLo: "allocBase0"}
+	for n, v := range x.entryEnv.vars {
+		penv.vars[n] = v
+	}
+	resT := fn.Signature.Results()
+	for i := 0; i < resT.Len() && i < len(rets); i++ {
+		penv.vars[fmt.Sprintf("ret%d", i)] = rets[i]
+		if n := resT.At(i).Name(); n != "" && n != "_" {
+			penv.vars[n] = rets[i]
+		}
+		if i < len(fc.Results) {
+			penv.vars[fc.Results[i]] = rets[i]
+		}
+		if isErrorType(resT.At(i).Type()) {
+			if _, ok := penv.vars["err"]; !ok {
+				penv.vars["err"] = rets[i]
+			}
+		}
+	}
+	if len(rets) == 1 {
+		penv.vars["result"] = rets[0]
+	}
+	pos := r.Pos()
+	if !pos.IsValid() {
+		pos = fn.Pos()
+	}
+	if fc.Def != nil && len(rets) == 1 && !x.against {
+		d := x.tr(fc.Def, x.entryEnv)
+		x.oblige("post", "def", implies(reach, eq(rets[0].S, d.S)), pos, "result == "+fc.Def.cstr())
+	}
+	for i, en := range fc.Ensures {
+		t := x.trBool(en.Expr, penv)
+		x.oblige("post", labelOr(en.Label, i), implies(reach, t), pos, en.Text)
+	}
 }
